@@ -931,7 +931,12 @@ func splitInlineBox(context *layoutContext, box_ Box, positionX, maxX, bottomSpa
 
 			marginWidth := newChild.Box().MarginWidth()
 			newPositionX := newChild.Box().PositionX + marginWidth
-			if newPositionX > maxX && !trailingWhitespace {
+			// the end spacing of the box follows its last child
+			limitX := maxX
+			if lastChild && resumeAt == nil {
+				limitX -= endSpacing
+			}
+			if newPositionX > limitX && !trailingWhitespace {
 				previousResumeAt := breakWaitingChildren(context, box_, bottomSpace, initialSkipStack, absoluteBoxes, fixedBoxes,
 					linePlaceholders, waitingFloats, lineChildren, &children, waitingChildren)
 				if previousResumeAt != nil {
